@@ -698,7 +698,7 @@ class C19(Check):
     design_ref = 'DESIGN.md section 5, C19'
 
     def strategy(self, tier):
-        return st.integers(0, 149).flatmap(lambda k, tier=tier: crowd_cases() if k == 0 else cases(tier))
+        return st.sampled_from(range(150)).flatmap(lambda k, tier=tier: crowd_cases() if k == 0 else cases(tier))
 
     def crowd_case(self, case):
         """more than a thousand requests become grantable by one operation: all of them are granted in that time step, in
